@@ -32,7 +32,7 @@ CHECKS = {
             "real": ["include/oneapi/tbb/flow_graph.h and detail/_flow_graph_*: function/multifunction/continue/input/buffer/queue/broadcast/limiter/join/async nodes, graph::wait_for_all, reserve_wait, cancel"]},
     "C15": {"scenarios": ["c15"], "quick_budget_s": 50, "thorough_budget_s": 900,
             "real": ["flow graph queue_node, sequencer_node, priority_queue_node, join_node (queueing / key_matching / reserving), limiter_node, overwrite_node, write_once_node, split_node, indexer_node, reservation protocol"]},
-    "C16": {"scenarios": ["c16", "c16b"], "quick_budget_s": 50, "thorough_budget_s": 900,
+    "C16": {"scenarios": ["c16", "c16b", "c16c"], "quick_budget_s": 50, "thorough_budget_s": 900,
             "real": ["src/tbb/arena.cpp (slots, occupy_free_slot, nested_arena_context, delegation), market.cpp allotment, threading_control, global_control.cpp, observer_proxy.cpp, isolation in arena_slot/task_dispatcher"],
             "assumptions": ["the allotment arithmetic 'for all demand vectors' is a pure function: it is exercised by the demand vectors real scenarios produce and guarded by oneTBB's own assertion (see known finding), not checked through a dedicated hook"]},
     "C17": {"scenarios": ["c17"], "quick_budget_s": 45, "thorough_budget_s": 600,
@@ -88,7 +88,7 @@ MANIFEST_TEXT = {
     "C20": {"level": "Seeded search over schedules of 1-5 tasks calling tbb::task::suspend with resume issued inside the callback (before the suspension took effect), by another TBB task, by a foreign thread at once or after a delay; nested second suspensions; task_group and parallel_for as the enclosing wait; arenas of size 1 (owner recall) to 3 and the implicit arena; oneTBB's real ucontext coroutines run inside the simulated threads; "
                      "oracle: each suspend point continues exactly once, never before resume() was called, never on two threads at once, never after the enclosing wait returned; the wait returns only when every suspended task finished; lost resumes show as deadlock/livelock.",
             "note": "__TBB_RESUMABLE_TASKS_USE_THREADS is forced to 0 so that the shipped coroutine implementation (not the sanitizer fallback) is simulated."},
-    "C16": {"level": "Seeded search over schedules of 1-4 application threads using 1-3 arenas (max_concurrency 1-4, reserved 0-2, three priorities) through execute / enqueue / task_group waits with isolate, on 1-8 simulated CPUs, optionally under global_control(max_allowed_parallelism, 1..4), with observers on every arena; "
+    "C16": {"level": "Seeded search over schedules of 1-4 application threads using 1-3 arenas (max_concurrency 1-4, reserved 0-2, three priorities) through execute / enqueue / task_group waits with isolate, on 1-8 simulated CPUs, optionally under global_control(max_allowed_parallelism, 1..4), with observers on every arena, plus sequences of global_control creation / destruction between phases of work (limit and market soft limit checked through hook H7); "
                      "oracle inside every body: threads inside an arena <= max_concurrency (+1 for a one-thread arena with enqueued work), pairwise distinct current_thread_index below the bound, reserved slots only held by application threads, isolation scopes respected while waiting, simultaneous workers in user work <= L-1 (mandatory worker allowed when L-1 == 0); observer entry/exit calls paired per thread.",
             "note": "threads holding a slot without executing a body are not visible to the oracle (it counts bodies); the allotment clauses (sum == min(demand, limit), no arena above its request, priority order, mandatory worker goes to an arena with enqueued work) are checked through hook H7 after every allotment update."},
     "C04": {"level": "Seeded search over schedules (incl. x86-TSO delays on the context objects) of context forests of 2-12 heap-allocated task_group_contexts (bound / isolated) that are bound lazily by nested parallel_for calls exactly as in production, with 1-3 cancel_group_execution calls issued from bodies inside the forest and from external threads, racing with binders, plus a focused scenario (chains of 3-4 bound contexts, store buffers always on, one cancel released just before the target's first child is bound) and a life-cycle scenario (2-3 rounds over the same heap contexts: cancelled contexts reset or carried on, stack-allocated contexts created / bound / destroyed by the bodies while cancellations propagate); "
